@@ -281,6 +281,14 @@ def kernel_footprint(prog, kern, data_param=None):
     k = interpret(prog, kern)
     rets = returned_arrays(k)
     if len(rets) != 1:
+        # a kernel split into jitted phases that allocate arrays and hand them on: read with the phases executed in place
+        def phase(g):
+            return g.jit is not None and prog.same_unit(kern.module, g.module) and \
+                any(isinstance(n, ast.Call) and isinstance(n.func, ast.Attribute) and n.func.attr in (
+                    'zeros', 'ones', 'full', 'empty', 'zeros_like', 'ones_like', 'full_like', 'empty_like') for n in g.own_nodes())
+        k = interpret(prog, kern, inline_all=phase)
+        rets = returned_arrays(k)
+    if len(rets) != 1:
         raise AnalysisIncomplete('%s: does not return exactly one array' % kern.qualname)
     out = rets[0]
     cells = [s for s in k.stores if s.arr is out and s.idx != 'all' and isinstance(s.idx, tuple) and len(s.idx) == 2
